@@ -251,11 +251,17 @@ func refAsStack(v any) (stackage.Stack, bool) {
 	default:
 		return s, false
 	}
-	d := stackage.VerifDump(s)
-	if d == nil || d.Nil {
+	if hollowHandle(s) {
 		return stackage.Stack{}, false
 	}
 	return s, true
+}
+
+// hollowHandle: the handle's embedded pointer is nil (zero or freed instance). Read by reflection, so
+// that neither the library nor a recursive dump is involved (the structure may contain itself).
+func hollowHandle(h any) bool {
+	v := reflect.ValueOf(h)
+	return v.Kind() == reflect.Struct && v.NumField() == 1 && v.Field(0).Kind() == reflect.Ptr && v.Field(0).IsNil()
 }
 
 func refAsCond(v any) (stackage.Condition, bool) {
@@ -285,8 +291,7 @@ func refAsCond(v any) (stackage.Condition, bool) {
 	default:
 		return c, false
 	}
-	d := stackage.VerifDump(c)
-	if d == nil || d.Nil {
+	if hollowHandle(c) {
 		return stackage.Condition{}, false
 	}
 	return c, true
